@@ -338,6 +338,60 @@ def run(project, chk):
     chk.check(ok, "W4", fi.short, "rgb = hsl_to_rgb((h, s, l))", loc, "the foreground blended is hsl_to_rgb((h, s, l)) of the parsed components", how="value of rgb", message="the foreground that is blended is not the HSL colour of the parsed (h, s, l)")
 
 
+def component_order(project, chk):
+    """W9: the colour handed to the compositor is (component 0, component 1, component 2, alpha = component 3) of the input."""
+    chk.rule("W9", "every rgba_to_rgb call of the parser gets (R, G, B, alpha) built from components 0, 1, 2, 3 of the input in that order; channels are read as components, alpha as alpha")
+    fi = project.funcs.get(f"{PAR}.parse_color_to_rgb")
+    if fi is None:
+        return
+    org = Origins(project, fi)
+    sc = Scope(project, fi)
+
+    def indices(o, out):
+        if isinstance(o, frozenset):
+            for x in o:
+                indices(x, out)
+            return out
+        if not isinstance(o, tuple) or not o:
+            return out
+        if o[0] == "item" and type(o[2]) is int:
+            out.add(o[2])
+        for x in o:
+            if isinstance(x, (tuple, frozenset)):
+                indices(x, out)
+        return out
+
+    def flags(o, out):
+        if isinstance(o, tuple) and o:
+            if o[0] == "call" and str(o[1]).endswith("_parse_number_token"):
+                kw = dict(o[3])
+                v = kw.get("component") or (o[2][1] if len(o[2]) > 1 else ("const", True))
+                out.add(v[1] if v[0] == "const" else None)
+            for x in o:
+                if isinstance(x, tuple):
+                    flags(x, out)
+        return out
+    n = 0
+    for c in own_nodes(fi.node):
+        if not (isinstance(c, ast.Call) and sc.resolve_call(c) == f"{CONV}.rgba_to_rgb" and c.args):
+            continue
+        o = org.at(c.args[0])
+        if o[0] != "tuple" or len(o[1]) != 4:
+            chk.not_decided.append(f"W9: {project.loc(fi.module, c)} the compositor's colour is not a 4-element display ({oshow(o)[:60]})")
+            continue
+        n += 1
+        got = [sorted(indices(e, set())) for e in o[1]]
+        ok = all(g == [k] for k, g in enumerate(got))
+        chk.check(ok, "W9", fi.short, norm_text(c), project.loc(fi.module, c), "the compositor's (R, G, B, alpha) are components 0, 1, 2, 3 of the input, in that order",
+                  how=f"component indices per position: {got}", message=f"the colour handed to the compositor takes its (R, G, B, alpha) from components {got} of the input: channels are swapped or reused")
+        fl = [sorted(flags(e, set()), key=str) for e in o[1]]
+        if all(fl):
+            okf = all(f == [True] for f in fl[:3]) and fl[3] == [False]
+            chk.check(okf, "W9", fi.short, norm_text(c) + " scales", project.loc(fi.module, c), "channels are scaled as 0..255 components, the fourth value as an alpha in 0..1",
+                      how=f"component= flags per position: {fl}", message=f"component= flags per position are {fl}: a channel is read on the alpha scale or the alpha on the channel scale")
+    chk.floor("rgba_to_rgb calls of the parser with a readable colour", n, 2)
+
+
 _run_own = run
 
 
@@ -345,3 +399,4 @@ def run(project, chk):      # noqa: F811  (borrowed rules first: an established 
     from checks._borrow import borrow
     borrow(project, chk, "C07", {"N8"}, "W8", "the alpha of an rgba() string is read from the token the author wrote: the number tokeniser recognises `.5`-style decimals (C07's token-language rule)")
     _run_own(project, chk)
+    component_order(project, chk)
